@@ -743,6 +743,36 @@ def retainServe (heap : List (Option Msg)) (req : Nat × Bool) : List (Option Ms
 def retainMany (heap : List (Option Msg)) (reqs : List (Nat × Bool)) : List (Option Msg) :=
   reqs.foldl retainServe heap
 
+/-! ### the pooled sub-query writer (`pipelineQueryer.Query`, `BufferWriter`, `putBufferWriter`) -/
+
+/-- what a sub-query's handler does: writes a response, writes nothing, or
+writes a response that is a marked request-local failure (Query returns the
+error) -/
+inductive SubKind | wrote | silent | localFail
+deriving Repr, DecidableEq
+
+/-- `BufferWriter.msg` (the id stands for the captured message) -/
+structure BufW where
+  msg : Option Nat := none
+deriving Repr, DecidableEq
+
+/-- one `Query` on a writer drawn from the pool: the handler runs, the result
+is decided (`RequestLocalFailureForResponse` → error, `!Written()` →
+ErrNoResponse, else the message), and the deferred `putBufferWriter` clears
+the writer on EVERY path -/
+def subQuery (w : BufW) (k : SubKind) (id : Nat) : Option Nat × BufW :=
+  let w1 : BufW := match k with
+    | .silent => w
+    | _ => { msg := some id }
+  let res := match k with
+    | .localFail => none
+    | _ => w1.msg
+  (res, { msg := none })
+
+def subMany (w : BufW) : List (SubKind × Nat) → List (Option Nat)
+  | [] => []
+  | (k, id) :: t => (subQuery w k id).1 :: subMany (subQuery w k id).2 t
+
 /-! ### the failover writer (`middleware/failover` `ResponseWriter.WriteMsg`) -/
 
 /-- a reply as far as the client can tell replies apart: transaction id, rcode, content mark -/
